@@ -1,6 +1,7 @@
 package sym
 
 import (
+	"math"
 	"fmt"
 	"go/token"
 	"go/types"
@@ -405,6 +406,9 @@ func (c *Ctx) convert(from, to types.Type, x Value) Value {
 		}
 		if tw, ts, ok := intInfo(tu); ok {
 			if c.IntMode {
+				if t.IsConst() && ts && tw == 64 && !math.IsNaN(t.F) && t.F >= -9223372036854775808.0 && t.F < 9223372036854775808.0 {
+					return c.mkInt64(int64(t.F), 64, true) // a constant in range: computed
+				}
 				c.unsupported("float to int conversion in int mode")
 			}
 			r := FPToBV(t, tw, ts)
